@@ -31,10 +31,11 @@ VARIABLES l,        \* next line
           lv,       \* live secrets: set of [p, sid, op, kid, kind]
           role,     \* kid -> "SK" | "IK" | "DRK"
           pairs,    \* (key, nonce) pairs used by AEAD encryptions of this run
+          leaked,   \* <<p, kid>>: system keys whose reference count is known to be leaked by the pinned implementation (known finding)
           sft,      \* p -> time of the last injected Store fault seen by that process
           nviol     \* number of violations reported so far (keeps reporting going without stopping TLC)
 
-mvars == <<l, par, now, store, revAt, ops, fet, lat, kdec, lv, role, pairs, sft, nviol>>
+mvars == <<l, par, now, store, revAt, ops, fet, lat, kdec, lv, role, pairs, sft, leaked, nviol>>
 
 ev == TraceLog[l]
 IsEv(e) == l <= Len(TraceLog) /\ ev.e = e /\ l' = l + 1
@@ -45,7 +46,7 @@ P == par.P
 Stamp(t) == t - (t % P)
 
 NoOp == [kind |-> "none", part |-> "", start |-> 0, calls |-> 0, faults |-> 0, sfault |-> FALSE, scope |-> "", skscope |-> "",
-         ikCreated |-> 0, recpart |-> "", op |-> "", reads |-> {}, ikid |-> "", kdecs |-> {}, ikreads |-> 0, ikstores |-> 0, ticked |-> FALSE]
+         ikCreated |-> 0, recpart |-> "", op |-> "", reads |-> {}, ikid |-> "", kdecs |-> {}, ikreads |-> 0, ikstores |-> 0, ticked |-> FALSE, refusedParent |-> -1]
 
 Get(id, cr) == {r \in store : r.id = id /\ r.created = cr}
 IsIK(id) == SubSeq(id, 1, 4) = "_IK_"
@@ -59,43 +60,45 @@ Has(f, k) == k \in DOMAIN f
 
 -----------------------------------------------------------------------------
 MInit == /\ l = 1 /\ now = 0 /\ store = {} /\ revAt = {} /\ ops = <<>> /\ fet = <<>> /\ lat = <<>> /\ kdec = <<>>
-         /\ lv = {} /\ role = <<>> /\ pairs = {} /\ nviol = 0 /\ sft = <<>>
+         /\ lv = {} /\ role = <<>> /\ pairs = {} /\ nviol = 0 /\ sft = <<>> /\ leaked = {}
          /\ par = [E |-> 1, R |-> 1, P |-> 1, run |-> 0, fits |-> TRUE, cfg |-> <<>>]
 
 Reset == /\ IsEv("reset")
          /\ par' = ev /\ now' = ev.now /\ store' = {} /\ revAt' = {} /\ fet' = <<>> /\ lat' = <<>> /\ kdec' = <<>>
          /\ ops' = [p \in DOMAIN ev.cfg |-> NoOp]
-         /\ lv' = {} /\ role' = <<>> /\ pairs' = {} /\ sft' = [p \in DOMAIN ev.cfg |-> -1] /\ UNCHANGED nviol
+         /\ lv' = {} /\ role' = <<>> /\ pairs' = {} /\ sft' = [p \in DOMAIN ev.cfg |-> -1] /\ leaked' = {} /\ UNCHANGED nviol
 
 \* the clock moves; operations in flight are marked so that the interval clauses (C20), which compare an operation's
 \* START time with fetch times, are not applied to an operation during which time passed
 Tick == /\ IsEv("tick") /\ now' = ev.now
         /\ ops' = [p \in DOMAIN ops |-> IF ops[p].kind # "none" THEN [ops[p] EXCEPT !.ticked = TRUE] ELSE ops[p]]
-        /\ UNCHANGED <<par, store, revAt, fet, lat, kdec, lv, role, pairs, nviol, sft>>
+        /\ UNCHANGED <<par, store, revAt, fet, lat, kdec, lv, role, pairs, nviol, sft, leaked>>
 
 Revoke == /\ IsEv("revoke")
           /\ store' = {IF r.id = ev.id /\ r.created = ev.created THEN [r EXCEPT !.revoked = TRUE] ELSE r : r \in store}
           /\ revAt' = revAt \cup {<<ev.id, ev.created, now>>}
-          /\ UNCHANGED <<par, now, ops, fet, lat, kdec, lv, role, pairs, nviol, sft>>
+          /\ UNCHANGED <<par, now, ops, fet, lat, kdec, lv, role, pairs, nviol, sft, leaked>>
 
 Bookkeeping == /\ (IsEv("open") \/ IsEv("close") \/ IsEv("skip"))
-               /\ UNCHANGED <<par, now, store, revAt, ops, fet, lat, kdec, lv, role, pairs, nviol, sft>>
+               /\ UNCHANGED <<par, now, store, revAt, ops, fet, lat, kdec, lv, role, pairs, nviol, sft, leaked>>
 
 \* a fault the harness injected inside the process (secret allocation / AEAD failure): the operation counts as faulted
 IFault == /\ IsEv("ifault")
           /\ ops' = [ops EXCEPT ![ev.p] = [@ EXCEPT !.faults = @ + 1]]
-          /\ UNCHANGED <<par, now, store, revAt, fet, lat, kdec, lv, role, pairs, nviol, sft>>
+          /\ UNCHANGED <<par, now, store, revAt, fet, lat, kdec, lv, role, pairs, nviol, sft, leaked>>
 
 \* SessionFactory.Close: every secret of that factory is released; its caches are gone
 Restart == /\ IsEv("restart")
-           /\ Report(IF ev.live > 0 THEN {"C09.ReleasedOnFactoryClose"} ELSE {})
-           /\ lv' = {s \in lv : s.p # ev.p}
-           /\ UNCHANGED <<par, now, store, revAt, ops, fet, lat, kdec, role, pairs, sft>>
+           /\ Report(IF ev.live > 0
+                     THEN {IF Cardinality({x \in lv : x.p = ev.p}) = ev.live /\ \A s \in {x \in lv : x.p = ev.p} : <<ev.p, s.kid>> \in leaked
+                           THEN "C09.ReleasedOnFactoryClose/sk-ref-leak" ELSE "C09.ReleasedOnFactoryClose"} ELSE {})
+           /\ lv' = lv      \* whatever was not freed before this event is really still live
+           /\ UNCHANGED <<par, now, store, revAt, ops, fet, lat, kdec, role, pairs, sft, leaked>>
 
 Start == /\ IsEv("start")
          /\ ops' = [ops EXCEPT ![ev.p] = [NoOp EXCEPT !.kind = ev.kind, !.part = ev.part, !.start = now, !.scope = ev.scope,
                                                     !.skscope = ev.skscope, !.ikCreated = ev.ikCreated, !.recpart = ev.recpart, !.op = ev.op]]
-         /\ UNCHANGED <<par, now, store, revAt, fet, lat, kdec, lv, role, pairs, nviol, sft>>
+         /\ UNCHANGED <<par, now, store, revAt, fet, lat, kdec, lv, role, pairs, nviol, sft, leaked>>
 
 -----------------------------------------------------------------------------
 (* metastore calls                                                          *)
@@ -107,7 +110,14 @@ Ms == /\ IsEv("ms")
              o2 == [o EXCEPT !.calls = @ + 1, !.faults = @ + (IF flt THEN 1 ELSE 0), !.sfault = @ \/ (flt /\ ev.call = "Store"),
                              !.reads = @ \cup rd,
                              !.ikreads = @ + (IF IsIK(ev.id) /\ ev.call # "Store" THEN 1 ELSE 0),
-                             !.ikstores = @ + (IF IsIK(ev.id) /\ ev.call = "Store" THEN 1 ELSE 0)]
+                             !.ikstores = @ + (IF IsIK(ev.id) /\ ev.call = "Store" THEN 1 ELSE 0),
+                             \* an IK insert that was refused (or failed): the parent SK the process was holding
+                             !.refusedParent = IF IsIK(ev.id) /\ ev.call = "Store" /\ ~ev.ok THEN ev.parent ELSE @]
+             \* KNOWN FINDING (C09, envelope.go intermediateKeyFromEKR): after a refused IK insert the process adopts the stored IK;
+             \* if that IK names another parent SK than the one at hand, the SK looked up for it keeps a counted reference forever
+             skOf(cr) == {r.kid : r \in {x \in store : ~IsIK(x.id) /\ x.created = cr}}
+             leak == IF IsIK(ev.id) /\ ev.call = "LoadLatest" /\ ~flt /\ ev.found >= 0 /\ o.refusedParent >= 0 /\ ev.parent # o.refusedParent
+                     THEN {<<ev.p, k>> : k \in skOf(ev.parent)} ELSE {}
              wrote == ev.call = "Store" /\ ev.wrote
              dup == wrote /\ Get(ev.id, ev.created) # {}
              \* C04: no IK is created under an SK that was already expired when the creating operation began
@@ -119,6 +129,7 @@ Ms == /\ IsEv("ms")
             /\ store' = IF wrote /\ ~dup THEN store \cup {[id |-> ev.id, created |-> ev.created, kid |-> ev.kid, parent |-> ev.parent, pkid |-> ev.pkid, revoked |-> FALSE]} ELSE store
             /\ role' = IF ev.kid > 0 /\ (wrote \/ rd # {}) THEN (ev.kid :> (IF IsIK(ev.id) THEN "IK" ELSE "SK")) @@ role ELSE role
             /\ Report(c04 \cup c03 \cup c14)
+            /\ leaked' = leaked \cup leak
       /\ sft' = IF ev.fault # "none" /\ ev.call = "Store" THEN [sft EXCEPT ![ev.p] = now] ELSE sft
       /\ UNCHANGED <<par, now, revAt, fet, lat, kdec, lv, pairs>>
 
@@ -135,7 +146,7 @@ Kms == /\ IsEv("kms")
                                                       !.kdecs = @ \cup (IF ev.call = "Dec" /\ ~flt THEN {ev.kid} ELSE {})]]
              /\ role' = IF ev.kid > 0 THEN (ev.kid :> "SK") @@ role ELSE role
              /\ Report(c20)
-       /\ UNCHANGED <<par, now, store, revAt, fet, lat, kdec, lv, pairs, sft>>
+       /\ UNCHANGED <<par, now, store, revAt, fet, lat, kdec, lv, pairs, sft, leaked>>
 
 -----------------------------------------------------------------------------
 (* C03: envelope discipline at the AEAD                                     *)
@@ -153,20 +164,20 @@ Aead == /\ IsEv("aead")
            IN /\ role' = IF payloadEnc THEN (ev.key :> "DRK") @@ role ELSE role
               /\ pairs' = IF enc THEN pairs \cup {<<ev.key, ev.nonce>>} ELSE pairs
               /\ Report(c1 \cup c2 \cup c3 \cup c4)
-        /\ UNCHANGED <<par, now, store, revAt, ops, fet, lat, kdec, lv, sft>>
+        /\ UNCHANGED <<par, now, store, revAt, ops, fet, lat, kdec, lv, sft, leaked>>
 
 -----------------------------------------------------------------------------
 (* C09: secrets                                                             *)
 Alloc == /\ IsEv("alloc")
          /\ lv' = lv \cup {[p |-> ev.p, sid |-> ev.sid, op |-> ev.op, kid |-> ev.kid, kind |-> ev.kind]}
-         /\ UNCHANGED <<par, now, store, revAt, ops, fet, lat, kdec, role, pairs, nviol, sft>>
+         /\ UNCHANGED <<par, now, store, revAt, ops, fet, lat, kdec, role, pairs, nviol, sft, leaked>>
 Free == /\ IsEv("free")
         /\ lv' = {s \in lv : ~(s.p = ev.p /\ s.sid = ev.sid)}
         /\ Report(IF ~\E s \in lv : s.p = ev.p /\ s.sid = ev.sid THEN {"C09.ReleasedTwice"} ELSE {})
-        /\ UNCHANGED <<par, now, store, revAt, ops, fet, lat, kdec, role, pairs, sft>>
+        /\ UNCHANGED <<par, now, store, revAt, ops, fet, lat, kdec, role, pairs, sft, leaked>>
 Misuse == /\ (IsEv("double-close") \/ IsEv("use-after-close"))
           /\ Report({IF ev.e = "double-close" THEN "C09.ReleasedTwice" ELSE "C09.TouchedAfterRelease"})
-          /\ UNCHANGED <<par, now, store, revAt, ops, fet, lat, kdec, lv, role, pairs, sft>>
+          /\ UNCHANGED <<par, now, store, revAt, ops, fet, lat, kdec, lv, role, pairs, sft, leaked>>
 
 -----------------------------------------------------------------------------
 (* operation return: the per-operation clauses                              *)
@@ -181,8 +192,12 @@ Ret == /\ IsEv("ret")
               common ==
                  (IF ev.panic # "" THEN {"C01/C07.NoPanicNoInputMutation"} ELSE {})
                  \cup (IF Len(ev.dirty) > 0 THEN {"C10.PlaintextKeyCopiesWiped"} ELSE {})
-                 \cup (IF nocache /\ (\E s \in lv : s.p = ev.p) THEN {"C09.NoCacheNothingRetained"} ELSE {})
-                 \cup (IF ev.dupLive > 0 THEN {"C09.AtMostOneSecretPerKey"} ELSE {})
+                 \cup (IF Len(ev.taint) > 0 THEN {"C03.NoPlaintextInOutputs"} ELSE {})
+                 \cup (IF nocache /\ (\E s \in lv : s.p = ev.p)
+                       THEN {IF \A s \in {x \in lv : x.p = ev.p} : <<ev.p, s.kid>> \in leaked THEN "C09.NoCacheNothingRetained/sk-ref-leak" ELSE "C09.NoCacheNothingRetained"} ELSE {})
+                 \cup (IF Len(ev.dupKids) > 0
+                       THEN {IF \A i \in 1..Len(ev.dupKids) : <<ev.p, ev.dupKids[i]>> \in leaked THEN "C09.AtMostOneSecretPerKey/sk-ref-leak" ELSE "C09.AtMostOneSecretPerKey"} ELSE {})
+                 \cup (IF ev.bound >= 0 /\ ev.live - Cardinality({x \in lv : x.p = ev.p /\ <<ev.p, x.kid>> \in leaked}) > ev.bound THEN {"C09.LiveWithinCacheCapacity"} ELSE {})
               encC ==
                  IF ev.kind # "Enc" THEN {} ELSE
                  IF ~ev.ok THEN (IF o.faults = 0 THEN {"C02.RecoversWhenFaultsStop"} ELSE {}) ELSE
@@ -236,15 +251,17 @@ Ret == /\ IsEv("ret")
              /\ lat' = IF ev.kind = "Enc" /\ ev.ok THEN (<<o.scope, ev.ikid>> :> ev.ikCreated) @@ lat ELSE lat
              /\ kdec' = IF o.faults = 0 /\ o.skscope # "none" THEN [k \in {<<o.skscope, kd>> : kd \in o.kdecs} |-> now] @@ kdec ELSE kdec
              /\ ops' = [ops EXCEPT ![ev.p] = NoOp]
-       /\ UNCHANGED <<par, now, store, revAt, lv, role, pairs, sft>>
+       /\ UNCHANGED <<par, now, store, revAt, lv, role, pairs, sft, leaked>>
 
 Final == /\ IsEv("final")
-         /\ Report((IF ev.live > 0 \/ (\E s \in lv : s.p = ev.p) THEN {"C09.ReleasedOnClose"} ELSE {})
+         /\ Report((IF ev.live > 0 \/ (\E s \in lv : s.p = ev.p)
+                     THEN {IF Cardinality({x \in lv : x.p = ev.p}) = ev.live /\ \A s \in {x \in lv : x.p = ev.p} : <<ev.p, s.kid>> \in leaked
+                           THEN "C09.ReleasedOnClose/sk-ref-leak" ELSE "C09.ReleasedOnClose"} ELSE {})
                    \cup (IF ev.doubleClose > 0 THEN {"C09.ReleasedTwice"} ELSE {})
                    \cup (IF ev.useAfterClose > 0 THEN {"C09.TouchedAfterRelease"} ELSE {})
                    \cup (IF ev.mutated > 0 THEN {"C14.RecordOverwritten"} ELSE {}))
-         /\ lv' = {s \in lv : s.p # ev.p}
-         /\ UNCHANGED <<par, now, store, revAt, ops, fet, lat, kdec, role, pairs, sft>>
+         /\ lv' = lv
+         /\ UNCHANGED <<par, now, store, revAt, ops, fet, lat, kdec, role, pairs, sft, leaked>>
 
 MNext == Reset \/ Tick \/ Revoke \/ Bookkeeping \/ IFault \/ Restart \/ Start \/ Ms \/ Kms \/ Aead \/ Alloc \/ Free \/ Misuse \/ Ret \/ Final
 MSpec == MInit /\ [][MNext]_mvars
